@@ -36,6 +36,6 @@ func runSibling(c *Ctx) {
 	}
 	p := mustLoad(c, K1)
 	rule := c.Prop + ".sibling"
-	c.Rule(rule, "SIBLING-AGREEMENT (generated code is an instantiation of its template): every function defined in a file with the 'Code generated ... DO NOT EDIT' header that exists in at least 4 instantiations of its template (curves; G1/G2 of one curve; field packages with the same limb count) has the same order-insensitive multiset of statement descriptors (calls with provenance-described operands, branch conditions, stores, returns, each with the guards it sits under; large constants abstracted, names normalised) as the strict majority of its siblings, unless the member is a listed template variant. A single deviating generated member is reported with what it lacks / has instead; hand-written files take part in the comparison but are never reported", sc.floor)
+	c.Rule(rule, "SIBLING-AGREEMENT (generated code is an instantiation of its template): every function defined in a file with the 'Code generated ... DO NOT EDIT' header that exists in at least 4 instantiations of its template (curves; G1/G2 of one curve; field packages with the same limb count) agrees with the strict majority of its siblings in three summaries that a behaviour-preserving restructuring leaves unchanged: OPERATIONS — the set of module operations it reaches, looking through the functions and closures of its own package (a member that lacks an operation all agreeing siblings reach is reported; additional operations are not); EFFECTS — which of receiver, parameters and captured variables it may write (from the EFFECTS engine); GUARDS — for every operation it performs, the checks (ok/not/noerr + callee) that dominate every call of it on the inlined view of the function, with predicates of the package seen through (a member where an operation lost a check is reported). Listed template variants are exempt and are never looked through; hand-written files take part in the comparison but are never reported. The exact statement multiset of earlier revisions is kept as a note only: it fired on every restructuring of a single generated file", sc.floor)
 	SiblingCheck(c, p, rule, sc.fams, regexp.MustCompile(sc.filter))
 }
